@@ -888,10 +888,30 @@ func (c *compiler) isEmptyResult(st ast.Statement) bool {
 	return false
 }
 
+// leadingBranch returns the break/continue statement that st certainly reaches before producing a
+// value: st itself, or the first such statement of a (nested) block whose preceding statements all
+// have an empty result. `{ continue; }` must transfer the value collected so far exactly like `continue;`.
+func (c *compiler) leadingBranch(st ast.Statement) *ast.BranchStatement {
+	switch st := st.(type) {
+	case *ast.BranchStatement:
+		return st
+	case *ast.BlockStatement:
+		for _, s := range st.List {
+			if bs := c.leadingBranch(s); bs != nil {
+				return bs
+			}
+			if !c.isEmptyResult(s) {
+				return nil
+			}
+		}
+	}
+	return nil
+}
+
 func (c *compiler) scanStatements(list []ast.Statement) (lastProducingIdx int, breakingBlock *block) {
 	lastProducingIdx = -1
 	for i, st := range list {
-		if bs, ok := st.(*ast.BranchStatement); ok {
+		if bs := c.leadingBranch(st); bs != nil {
 			if blk := c.findBranchBlock(bs); blk != nil {
 				breakingBlock = blk
 			}
